@@ -114,8 +114,11 @@ impl PartitionConfirmationState {
                     attempts: 0,
                 });
 
-        // Update the event's confirmation status
-        event.confirmation_count = confirmation_count;
+        // Update the event's confirmation status. A transaction's confirmation count only
+        // grows, so a lower count is a stale report that was overtaken by a newer one (the
+        // replicator's report of the count at append time can arrive after the coordinator's
+        // confirmation) and must not take a reached quorum away again.
+        event.confirmation_count = event.confirmation_count.max(confirmation_count);
         event.last_attempt = now;
         event.attempts += 1;
 
